@@ -207,8 +207,14 @@ func genOps(rng *Rng, n int, long bool) []cop {
 			o.val = Val{W: 2, N: rng.U64() & 0xffff}
 		case 2:
 			o.val = Val{W: 4, N: rng.U64() & 0xffffffff}
+			if rng.Chance(30) {
+				o.val.N = boundaryVal(rng) & 0xffffffff
+			}
 		case 3:
 			o.val = Val{W: 8, N: rng.U64()}
+			if rng.Chance(40) {
+				o.val.N = boundaryVal(rng)
+			}
 		default:
 			ln := rng.Intn(6)
 			if rng.Chance(10) {
@@ -229,6 +235,26 @@ func genOps(rng *Rng, n int, long bool) []cop {
 		ops = append(ops, o)
 	}
 	return ops
+}
+
+// boundaryVal: values around the powers of two where a narrower encoding of the same number would
+// stop being exact (2^7, 2^8, 2^15, 2^16, 2^31, 2^32, 2^63), and small ones
+func boundaryVal(rng *Rng) uint64 {
+	k := []uint{7, 8, 15, 16, 31, 32, 63}[rng.Intn(7)]
+	base := uint64(1) << k
+	switch rng.Intn(6) {
+	case 0:
+		return base - 1
+	case 1:
+		return base
+	case 2:
+		return base + 1
+	case 3:
+		return base + rng.U64()%base
+	case 4:
+		return ^base + 1
+	}
+	return uint64(rng.Intn(300))
 }
 
 type codecSummary struct {
@@ -349,6 +375,41 @@ func checkWire(ops []cop, b *commit.Buffer, chunks []commit.Chunk, isStr map[uin
 	}
 	if len(kept) != len(chunks) {
 		return fmt.Sprintf("Log.Range delivered %d of %d commits", len(kept), len(chunks))
+	}
+	// a decoded buffer is a buffer: writing on after a WriteTo / ReadFrom round trip (of the empty
+	// buffer, of a prefix ending in any block) must give the buffer that was written in one go
+	for _, k := range []int{0, 1, len(ops) / 2, len(ops) - 1} {
+		if k < 0 || k > len(ops) {
+			continue
+		}
+		pre := commit.NewBuffer(16)
+		pre.Reset(b.Column)
+		for _, o := range ops[:k] {
+			writeOp(pre, o)
+		}
+		var pw bytes.Buffer
+		if _, err := pre.WriteTo(&pw); err != nil {
+			return "Buffer.WriteTo: " + err.Error()
+		}
+		cont := commit.NewBuffer(8)
+		if _, err := cont.ReadFrom(bytes.NewReader(pw.Bytes())); err != nil {
+			return "Buffer.ReadFrom: " + err.Error()
+		}
+		for _, o := range ops[k:] {
+			writeOp(cont, o)
+		}
+		for _, ch := range chunks {
+			if !sameOps(decodeChunk(cont, ch, isStr), decodeChunk(b, ch, isStr)) {
+				return fmt.Sprintf("a buffer decoded after its first %d operations and written on reads block %d differently from the buffer written in one go", k, ch)
+			}
+		}
+		var seen []commit.Chunk
+		cont.RangeChunks(func(ch commit.Chunk) { seen = append(seen, ch) })
+		var want []commit.Chunk
+		b.RangeChunks(func(ch commit.Chunk) { want = append(want, ch) })
+		if fmt.Sprint(seen) != fmt.Sprint(want) {
+			return fmt.Sprintf("a buffer decoded after its first %d operations and written on reports blocks %v, the buffer written in one go %v", k, seen, want)
+		}
 	}
 	for i, c := range kept {
 		if c.ID != uint64(500+i) || c.Chunk != chunks[i] || len(c.Updates) != 1 {
